@@ -691,6 +691,7 @@ class HostInterp:
       self._loop_n += 1
       lid = f"L{self._loop_n}:capture_while {cond.text if cond else ''}"
       self._loops.append(lid)
+      self._emit("device_cond", pc, loc, name="wp.capture_while", src=cond)
       self._emit("loop_begin", pc, loc, name=lid, src=cond)
       if isinstance(body, Func):
         self._invoke(body, [], {k: self._expr(v, env, fi, pc) for k, v in kw.items()}, pc, loc)
@@ -701,6 +702,7 @@ class HostInterp:
       kw = {k.arg: k.value for k in node.keywords}
       cond = self._expr(node.args[0], env, fi, pc) if node.args else self._expr(kw.pop("condition", None), env, fi, pc)
       rest = {k: self._expr(v, env, fi, pc) for k, v in kw.items() if k not in ("on_true", "on_false")}
+      self._emit("device_cond", pc, loc, name="wp.capture_if", src=cond)
       for key, pol in (("on_true", True), ("on_false", False)):
         if key in kw:
           f = self._expr(kw[key], env, fi, pc)
